@@ -5,12 +5,16 @@ import AioslskVerif.Proofs.XferTasks
 Property theorems only (model: `Model/XferTasks.lean`, invariant: `Proofs/XferTasks.lean`).  The
 model is the code **with** `fixes/C06-single-flight.patch` (spawn guards "slot holds no running task"
 and "no state change in progress", identity check in the done-callbacks, `remove` cancels what is
-left in the slots).  `run ops` is the state after any list of ops — cycles looking at any transfers
-at any instant, peer transfer requests, first steps / ends (any outcome) / done-callbacks of any
-task in any order, calls of abort / pause / remove at any point and their returns, re-queues —
-i.e. any schedule of the abstraction.  On the unpatched tree both theorems are false (see
-`fixes/C06-single-flight.md`: a cycle overwrites the slot while the previous task is still
-connecting; the witness is replayed by the check).
+left in the slots) and `fixes/C06-init-download-refused.patch` (a download initialisation whose
+`state.initialize()` is refused answers `allowed=False` and ends).  `run ops` is the state after any
+list of ops — cycles looking at any transfers at any instant, peer transfer requests **also while a
+call holds the state lock**, the peer's refusal / PeerUploadFailed, first steps / ends (any outcome)
+/ done-callbacks of any task in any order, calls of abort / pause / remove at any point, the
+intermediate step of remove and their returns, re-queues, downloads that failed without a reason
+(retried by the manager) — i.e. any schedule of the abstraction.  On the tree without the first patch
+both theorems are false (see `fixes/C06-single-flight.md`); without the second the initialisation
+started by a peer request during a call went on after the call had returned
+(`fixes/C06-init-download-refused.md`); the witnesses are replayed by the check.
 -/
 namespace AioslskVerif.C06
 open AioslskVerif.Tasks
@@ -36,23 +40,58 @@ theorem C06_single_flight_unique (ops : List Op) (t u : Nat)
 
 /-- Quiescence: once `abort` / `pause` / `remove` has returned for transfer `k` (`quiet`), then
 along **every** continuation that contains no user / peer action on `k` (no re-queue, no further
-call, no peer request for it): no background task of `k` is alive, and state, `remotely_queued`,
-`queue_attempts`, the count of connection attempts / messages / field changes made on its behalf and
-its membership of the transfer list all stay what they were when the call returned. -/
+call, no peer message for it) — but any cycles, any steps of any task including the first step and
+the end of an initialisation that a peer request started *while the call was in progress*: state,
+`remotely_queued`, `queue_attempts`, the count of connection attempts / messages / field changes made
+on its behalf and its membership of the transfer list all stay what they were when the call returned;
+and whatever task of `k` is still alive is inert — cancelled (a later call waits for it), or such a
+late initialisation that is still before `state.initialize()` or was refused by it (all it does is
+answer the peer `allowed=False`). -/
 theorem C06_quiescent_after_cancel (ops ops' : List Op) (k : Nat) (hk : k < (run ops).nx)
     (hq : ((run ops).xs k).quiet = true) (hn : ∀ op ∈ ops', op.addresses k = false) :
     obs ((run (ops ++ ops')).xs k) = obs ((run ops).xs k) ∧
-      ∀ t, ((run (ops ++ ops')).tasks t).live = true → ((run (ops ++ ops')).tasks t).xfer ≠ k := by
+      ∀ t, ((run (ops ++ ops')).tasks t).live = true → ((run (ops ++ ops')).tasks t).xfer = k →
+        Inert ((run (ops ++ ops')).tasks t) := by
   have hrun : run (ops ++ ops') = ops'.foldl step (run ops) := by simp [run, List.foldl_append]
   rw [hrun]
   exact quiet_foldl (inv_run ops) hk hq ops' hn
 
+/-- An inert task does nothing for its transfer: in a reachable state in which `k` is quiet, the next
+step of a live task of `k` (first step with any lock situation, end with any outcome) leaves every
+observed field of `k` unchanged — in particular the late initialisation finds the transition refused. -/
+theorem C06_inert_task_is_silent (ops : List Op) (k t : Nat) (o : Outcome) (hk : k < (run ops).nx)
+    (hq : ((run ops).xs k).quiet = true) :
+    obs ((step (run ops) (.taskStart t)).xs k) = obs ((run ops).xs k) ∧
+      obs ((step (run ops) (.taskEnd t o)).xs k) = obs ((run ops).xs k) :=
+  ⟨(quiet_step (inv_run ops) hk hq (.taskStart t) rfl).1, (quiet_step (inv_run ops) hk hq (.taskEnd t o) rfl).1⟩
+
 /-- The return of a call makes the transfer quiet, and it can only return when every task it
-cancelled has finished. -/
+cancelled has finished (for `remove`: after its `abort` part is through, `removeMid`). -/
 theorem C06_return_is_quiet (s : TS) (k : Nat) (c : CallKind) (hl : (s.xs k).locked = some c)
-    (hw : (s.xs k).waitFor.all (fun t => !(s.tasks t).live) = true) :
+    (hw : (s.xs k).waitFor.all (fun t => !(s.tasks t).live) = true) (hr : c = .remove → (s.xs k).removed = true) :
     ((step s (.callResume k)).xs k).quiet = true ∧ ((step s (.callResume k)).xs k).locked = none := by
-  simp only [step, hl, hw, if_true, upd_same, and_self]
+  simp only [step, hl, hw, true_and]
+  rw [if_pos hr]
+  simp only [upd_same, and_self]
+
+/-- … and it does not return before: while a task it cancelled is alive, `callResume` is not enabled. -/
+theorem C06_no_return_before (s : TS) (k t : Nat) (ht : t ∈ (s.xs k).waitFor) (hlive : (s.tasks t).live = true) :
+    step s (.callResume k) = s := by
+  simp only [step]
+  split
+  · have hw : ¬ ((s.xs k).waitFor.all (fun t => !(s.tasks t).live) = true) := by
+      intro hw
+      have := List.all_eq_true.mp hw t ht
+      simp [hlive] at this
+    simp [hw]
+  · rfl
+
+/-- In every reachable state, when a call returns for `k` (any kind, the peer request may have arrived at
+any point of the call) everything still alive for `k` is inert. -/
+theorem C06_return_leaves_inert (ops : List Op) (k t : Nat)
+    (hq : ((run ops).xs k).quiet = true) (hl : ((run ops).tasks t).live = true) (hx : ((run ops).tasks t).xfer = k) :
+    Inert ((run ops).tasks t) :=
+  (inv_run ops).quietInert k hq t hl hx
 
 /-! ## the hypotheses are satisfiable -/
 
@@ -88,5 +127,33 @@ example :
       .taskEnd 0 .ok, .doneCallback 0, .callResume 0, .cycle [0]]
     (s.xs 0).st = .failed ∧ (s.xs 0).removed = true ∧ (s.xs 0).quiet = true ∧ (s.xs 0).rq = false ∧
       (s.xs 0).acts = 1 ∧ s.nt = 1 ∧ (s.tasks 0).live = false := by decide
+
+/-- the peer's transfer request arrives while abort waits for the remote-queue attempt it cancelled: the handler still
+sees QUEUED and starts an initialisation (task 1) the call does not wait for; its `state.initialize()` waits for the
+lock, abort returns (ABORTED), the task finds the transition refused and ends: nothing was done for the transfer after
+the first connect (`acts = 1`), no third task, ABORTED, quiet -/
+example :
+    let s := run [.addDownload, .cycle [0], .taskStart 0, .call 0 .abort, .peerRequest 0, .taskStart 1, .taskEnd 0 .ok,
+      .doneCallback 0, .callResume 0]
+    let s' := [Op.cycle [0], .taskEnd 1 .transferring, .doneCallback 1, .cycle [0]].foldl step s
+    (s.xs 0).quiet = true ∧ (s.tasks 1).live = true ∧ (s.tasks 1).phase = .refused ∧
+      (s'.tasks 1).live = false ∧ (s'.xs 0).st = .aborted ∧ (s'.xs 0).acts = 1 ∧ s'.nt = 2 := by decide
+
+/-- the same during `remove`: when its abort part is through the late initialisation is cancelled with whatever else the
+slots hold, and remove returns only when it is gone -/
+example :
+    let s := run [.addDownload, .cycle [0], .taskStart 0, .call 0 .remove, .peerRequest 0, .taskStart 1, .taskEnd 0 .ok,
+      .removeMid 0, .callResume 0]
+    let s' := [Op.taskEnd 1 .ok, .callResume 0].foldl step s
+    (s.xs 0).locked = some .remove ∧ (s.xs 0).removed = true ∧ (s.tasks 1).cancelReq = true ∧ (s.xs 0).quiet = false ∧
+      (s'.xs 0).quiet = true ∧ (s'.tasks 1).live = false ∧ (s'.xs 0).acts = 1 := by decide
+
+/-- a download that failed without a reason is retried by the manager; `remove` takes it off the list at once, so the
+cycle that runs between the end of the cancelled attempt and the return of `remove` creates nothing -/
+example :
+    let s := run [.addFailed, .cycle [0], .taskStart 0, .call 0 .remove, .taskEnd 0 .ok, .doneCallback 0, .cycle [0],
+      .callResume 0, .cycle [0]]
+    (run [.addFailed, .cycle [0]]).nt = 1 ∧ s.nt = 1 ∧ (s.xs 0).quiet = true ∧ (s.xs 0).removed = true ∧
+      (s.xs 0).rq = false := by decide
 
 end AioslskVerif.C06
